@@ -176,7 +176,7 @@ class C14(Check):
     lean_targets = ["drv_c14"]
     driver = "drv_c14"
     theorems = []          # filled below
-    # anchored functions of the behaviour-modelled classes; line ranges are taken from the working tree by `ast` in setup()
+    # anchored functions of the behaviour-modelled classes, by qualified name
     ANCHOR_FUNCS = {"packet_utils": ["checksum"], "packet_base": ["packet_base.pack", "packet_base.set_payload"],
                     "ethernet": ["ethernet.parse", "ethernet.parse_next", "ethernet.hdr"], "vlan": ["vlan.parse", "vlan.hdr"],
                     "arp": ["arp.parse", "arp.hdr"], "ipv4": ["ipv4.parse", "ipv4.checksum", "ipv4.hdr"],
@@ -224,25 +224,8 @@ class C14(Check):
         self.packet_base = self.m["packet_base"].packet_base
         self.checksum = self.m["packet_utils"].checksum
         self.pkgdir = os.path.join(common.REPO, "pox", "lib")
-        self.anchors = self._anchors_from_ast()
-
-    def _anchors_from_ast(self):
-        import ast
-        out = []
-        for mod, funcs in self.ANCHOR_FUNCS.items():
-            rel = "pox/lib/packet/%s.py" % mod
-            tree = ast.parse(open(os.path.join(common.REPO, rel)).read())
-            defs = {}
-            for node in tree.body:
-                if isinstance(node, ast.FunctionDef): defs[node.name] = node
-                if isinstance(node, ast.ClassDef):
-                    for sub in node.body:
-                        if isinstance(sub, ast.FunctionDef): defs[node.name + "." + sub.name] = sub
-            for f in funcs:
-                n = defs[f]
-                body = [b for b in n.body if not (isinstance(b, ast.Expr) and isinstance(getattr(b, "value", None), ast.Constant) and isinstance(b.value.value, str))]
-                out.append((rel, body[0].lineno, n.end_lineno))
-        return out
+        # name-based anchors: resolved by common.AnchorCoverage with ast on every run (robust to line shifts)
+        self.anchors = [("pox/lib/packet/%s.py" % mod, f) for mod, funcs in self.ANCHOR_FUNCS.items() for f in funcs]
 
     # ------------------------------------------------------------------ building real objects from a layer list
     def build(self, layers):
